@@ -14,6 +14,30 @@ mod redb_drv;
 mod sock_drv;
 mod util;
 
+/// the real auth::pattern_matches on a table of (grant, requested pattern) pairs
+fn auth_run(args: &[String]) -> i32 {
+    use std::io::{BufRead, Write};
+    if args.len() < 2 {
+        eprintln!("usage: wbverif auth-run <pairs.ndjson> <answers.ndjson>");
+        return 2;
+    }
+    let input = std::io::BufReader::new(std::fs::File::open(&args[0]).expect("open input"));
+    let mut out = std::io::BufWriter::new(std::fs::File::create(&args[1]).expect("create output"));
+    for (i, line) in input.lines().enumerate() {
+        let line = line.expect("io");
+        if i == 0 {
+            writeln!(out, "{line}").ok();
+            continue;
+        }
+        let r: serde_json::Value = serde_json::from_str(&line).expect("json");
+        let join = |v: &serde_json::Value| v.as_array().map(|a| a.iter().map(|x| x.as_str().unwrap_or("")).collect::<Vec<_>>().join("/")).unwrap_or_default();
+        let res = worterbuch::verif::pattern_matches(&join(&r["g"]), &join(&r["p"]));
+        writeln!(out, "{}", serde_json::json!({"g": r["g"], "p": r["p"], "res": res})).ok();
+    }
+    out.flush().ok();
+    0
+}
+
 fn main() {
     let args: Vec<String> = std::env::args().collect();
     if args.len() < 2 {
@@ -35,6 +59,7 @@ fn main() {
         "redb-run" => redb_drv::main_run(&args[2..]),
         "persist-run" => persist_drv::main_run(&args[2..]),
         "sock-run" => sock_drv::main_run(&args[2..]),
+        "auth-run" => auth_run(&args[2..]),
         "client-run" => client_drv::main_run(&args[2..]),
         "buffer-run" => client_drv::buffer_run(&args[2..]),
         other => {
